@@ -488,6 +488,13 @@ def memo_key_gaps(tree: ast.AST) -> List[Tuple[ast.AST, str, Set[str]]]:
                 store, key, val = norm(n.func.value), n.args[0], n.args[1]
             if store is None or not any(isinstance(x, ast.Call) for x in ast.walk(val)):
                 continue
+            # a fresh local dict filled in a loop over the items of another mapping: every key comes once, nothing is looked up again
+            if "." not in store and any(isinstance(d, ast.Assign) and any(isinstance(t, ast.Name) and t.id == store for t in d.targets)
+                                        and isinstance(d.value, ast.Dict) and not d.value.keys for d in ast.walk(fn)):
+                lp = next((l_ for l_ in ast.walk(fn) if isinstance(l_, ast.For) and any(n is y for y in ast.walk(l_))), None)
+                if lp is not None and isinstance(lp.iter, ast.Call) and isinstance(lp.iter.func, ast.Attribute) and lp.iter.func.attr == "items" \
+                        and norm(lp.iter.func.value) != store and isinstance(lp.target, ast.Tuple) and norm(lp.target.elts[0]) == norm(key):
+                    continue
             if isinstance(n, ast.Assign):
                 # a memo store is conditional on the key being absent; an unconditional `D[k] = f(D.get(k), x)` is an update
                 guarded = False
